@@ -498,7 +498,11 @@ class Exec:
         elif isinstance(t, ast.Subscript):
             base = self.eval(t.value, fr)
             idx = self.eval_index(t.slice, fr)
-            cur = self.getitem(base, idx, t)
+            self._augassign_target = True       # a[mask] <op>= v updates in place: keep the masked view
+            try:
+                cur = self.getitem(base, idx, t)
+            finally:
+                self._augassign_target = False
             rhs = self.eval(st.value, fr)
             if isinstance(cur, NdArr) or type(cur).__name__ == "MaskedView":
                 if isinstance(base, NdArr):
